@@ -301,13 +301,35 @@ def main():
             res = harness.replay(ctx, case)
             print(json.dumps(res, indent=1, default=str))
             return 1 if res.get('violates') else 0
-        res = harness.run(ctx)
+        known0 = load_known()
+
+        def is_known(v):
+            fid = v.get('finding')
+            return bool(fid and fid in known0 and known0[fid].get('status') == 'known' and known0[fid].get('property') == prop)
+        crashed = None
+        try:
+            res = harness.run(ctx)
+        except subprocess.TimeoutExpired:
+            raise
+        except Exception:
+            # the harness could not cope with the tree under test (e.g. a restructured function its model
+            # comparison relies on).  That is not a verdict; fall back to the implementation-only failing-input
+            # search, which needs neither the model nor the generated tables.  Only a concrete failing input found
+            # there is reported; otherwise this stays an infrastructure failure (exit 2).
+            crashed = traceback.format_exc()
+            if not hasattr(harness, 'search'):
+                raise
+            sys.stderr.write('harness.run crashed; falling back to the implementation-only search\n' + crashed)
+            res = {'evaluations': 0, 'distinct_nontrivial': 0, 'rule': 'harness.run crashed; search() only', 'samples': [],
+                   'mismatches': [], 'violations': [], 'notes': ['harness.run crashed: ' + crashed[-600:]]}
         mism = res.get('mismatches', [])
         viol = res.get('violations', [])
-        if (broken or mism) and not viol and hasattr(harness, 'search'):
+        if (broken or mism or crashed) and not [v for v in viol if not is_known(v)] and hasattr(harness, 'search'):
             sres = harness.search(ctx)
-            viol = sres.get('violations', [])
+            viol = viol + sres.get('violations', [])
             res['search'] = {k: v for k, v in sres.items() if k != 'violations'}
+        if crashed and not [v for v in viol if not is_known(v)]:
+            print('harness.run crashed and the fallback search found no failing input'); return 2
     except subprocess.TimeoutExpired as e:
         print('TIMEOUT %s' % e); return 2
     except Exception:
